@@ -31,6 +31,7 @@ import struct
 import types
 
 from xdis.codetype import Code2, Code3
+from xdis.cross_types import UnicodeForPython3
 from xdis.version_info import PYTHON3, PYTHON_VERSION_TRIPLE, version_tuple_to_str
 
 try:
@@ -106,6 +107,21 @@ class _Marshaller:
                 "code type passed for version %s but we are running version %s"
                 % (version_tuple_to_str(), self.python_version)
             )
+        if PYTHON3 and self.python_version and self.python_version < (3, 0):
+            # Writing Python 2 bytecode: what the unmarshaller gave us as
+            # text is one of Python 2's two string types.
+            if isinstance(x, UnicodeForPython3):
+                # a Python 2 unicode object; it keeps its UTF-8 payload
+                self.dump_unicode(x.value)
+                return
+            if type(x) is str:
+                # a Python 2 str object that happened to be valid UTF-8
+                self.dump_string(x.encode("utf-8"))
+                return
+            if type(x) is int:
+                # a Python 2 int; Python 2 long objects come as LongTypeForPython3
+                self.dump_int(x)
+                return
         try:
             self.dispatch[type(x)](self, x)
         except KeyError:
@@ -350,6 +366,13 @@ class _Marshaller:
     # FIXME: will probably have to adjust similar to how we
     # adjusted dump_code2
     def dump_code3(self, x):
+        if hasattr(x, "co_exceptiontable"):
+            # 3.11 changed the layout of a marshalled code object (qualified
+            # name, localsplus tables, exception table); we only know the
+            # layout used up to 3.10.
+            raise TypeError(
+                "writing Python 3.11+ code objects is not supported"
+            )
         self._write(TYPE_CODE)
         self.w_long(x.co_argcount)
         if hasattr(x, "co_posonlyargcount"):
@@ -1097,6 +1120,8 @@ def dumps(x, version=version, python_version=PYTHON_VERSION_TRIPLE):
             else:
                 buf.append(b)
 
+        if PYTHON3:
+            return b"".join(buf)
         return "".join(buf)
 
 
